@@ -277,6 +277,11 @@ def run(chk, replay=None):
         k2.run_k2(chk, n_tus=2 if quick else 12, cases_per_tu=8, scripts_per_case=12 if quick else 40, cfg=cfg, tag="k2" + cfg)
         per[cfg] = chk.cov["traces_validated_against_impl"] - before
     asyncstack_tie(chk)
+    # coroutine path under schedule control, assertions + async stacks on: the task stop-request thunk (all schedules with <= 2
+    # pre-emptions): an unbalanced root/frame trips the library's own assertions; the trace must equal the SrThunk model's
+    import k1
+    from units import sr_thunk
+    k1.run_unit(chk, sr_thunk.SrThunkDebug())
     for cfg in DBG:
         per[cfg] = chk.cov["asyncstack"]["calc_traces_compared"].get(cfg, 0)
     chk.cov["per_configuration_traces_equal_to_model"] = per
